@@ -191,6 +191,9 @@ func (vc *VC) frameTargets(ctx *SpecCtx, m *Clause) ([]frameTarget, bool) {
 		if x.Name == "heap" || x.Name == "everything" {
 			return nil, true
 		}
+		if x.Name == "mapcontents" {
+			return []frameTarget{{"$maps", ""}}, false
+		}
 		return nil, false // package variable: not a heap location
 	case *SSel:
 		ctx.inOld = true
@@ -269,7 +272,7 @@ func (vc *VC) frame() *frameSpec {
 // and outside objects allocated by this call. ok=false if nothing has to be shown.
 func (vc *VC) frameGoal(k string, cur Term) (string, bool) {
 	fs := vc.frame()
-	if fs.everything || k == allocHeap || fs.whole[k] {
+	if fs.everything || k == allocHeap || fs.whole[k] || (fs.whole["$maps"] && isMapHeap(k)) {
 		return "", false
 	}
 	ent, ok := vc.entry.heaps[k]
